@@ -75,6 +75,9 @@ func authz(ad types.AuthorizationData) {
 
 var registryBuilt bool
 
+// withFlows: the decoder worker does not build (or run) the client and service flows at all.
+var withFlows = true
+
 func buildRegistry() {
 	if registryBuilt {
 		return
@@ -508,7 +511,9 @@ func buildRegistry() {
 		types.GetHostAddress(string(b))
 	}})
 	registerCrypto()
-	registerFlows()
+	if withFlows {
+		registerFlows()
+	}
 }
 
 func paSeeds() [][]byte {
